@@ -42,7 +42,8 @@ def stmt_regs(s):
     if op == "arrget": return s[1], [s[2]] + list(s[3])
     if op == "arrset": return s[1], [s[1], s[3]] + list(s[2])
     if op == "bset": return None, [s[2]]
-    if op == "bget": return s[1], []
+    if op == "bget" or op == "bgetidx": return s[1], []
+    if op == "bsetidx": return None, [s[3]]
     if op == "breakif": return None, [s[1]]
     if op == "oif":
         used = [s[1]]
